@@ -86,9 +86,9 @@ def splitVarm (tag : Nat) (nelems xsz : Int) (count0 : Nat) : List Sub :=
   else [{ tag := tag, nelems := nelems, xoff := 0 }]
 
 /-- igetput_varn, sub-request with `nelems` elements whose data starts `xoff` bytes into xbuf:
-    `req->nelems = req_nelems[i]` and then add_record_requests — WITHOUT the division -/
+    `req->nelems = req_nelems[i]`, `req->nelems /= counts[i][0]`, then add_record_requests -/
 def splitVarn (tag : Nat) (nelems xoff xsz : Int) (count0 : Nat) : List Sub :=
-  if count0 > 1 then addRecordRequests { tag := tag, nelems := nelems, xoff := xoff } xsz count0
+  if count0 > 1 then addRecordRequests { tag := tag, nelems := nelems / (count0 : Int), xoff := xoff } xsz count0
   else [{ tag := tag, nelems := nelems, xoff := xoff }]
 
 /-- what a correct split looks like: `k` pieces of `nelems / k` elements tiling the buffer range -/
